@@ -6,7 +6,7 @@ FLOAT_TB = "core Lean's claim that compiled Float operations implement Float.Mod
 
 PROPS = {
  'C03': dict(
-    modules=['SlacProps.C03', 'SlacProps.C03Float'],
+    modules=['SlacProps.C03', 'SlacProps.C03Float', 'SlacProps.C03Source'], translate=True,
     streams=[
         dict(name='evaltable', n=n(0, 0), view='result'),
         dict(name='eval', n=n(40000, 1500000), view='result'),
@@ -22,7 +22,7 @@ PROPS = {
     assumptions=['environment functions are history independent (Lean functions)'],
  ),
  'C04': dict(
-    modules=['SlacProps.C04'],
+    modules=['SlacProps.C04', 'SlacProps.C03Source'], translate=True,
     streams=[
         dict(name='evaltable', n=n(0, 0), view='full'),
         dict(name='eval', n=n(40000, 1500000), view='full'),
